@@ -75,9 +75,15 @@ def effective_defaults(model, cname):
     for p in c.get('params', []):
         if 'default' in p:
             out[p['name']] = model.ns['_D_%s_%s' % (cname, p['name'])]
-    for k, v in (c.get('defaults_override') or {}).items():
-        if k in out:
-            out[k] = M.dec(v, model)
+    # _yatiml_defaults is looked up with getattr(): the nearest class in the
+    # MRO that defines it wins (as a whole)
+    for klass in model.classes[cname].__mro__:
+        kc = model.cspecs.get(klass.__name__)
+        if kc is not None and kc.get('defaults_override'):
+            for k, v in kc['defaults_override'].items():
+                if k in out:
+                    out[k] = M.dec(v, model)
+            break
     return out
 
 
@@ -102,6 +108,30 @@ def _sweeten_op(model, cname, op, data):
         if type(v) is int and 0 <= v < len(M.WORDS):
             data = collections.OrderedDict(data)
             data[op[1]] = M.WORDS[v]
+        return data
+    if k in ('seq_to_map', 'index_to_map') and isinstance(data, dict):
+        attr, key_attr, value_attr = op[1], op[2], op[3]
+        items = data.get(attr)
+        if k == 'seq_to_map':
+            if not isinstance(items, list) or not all(
+                    isinstance(x, dict) and key_attr in x for x in items):
+                return data
+            pairs = [(x[key_attr], x) for x in items]
+        else:
+            if not isinstance(items, dict) or not all(
+                    isinstance(x, dict) for x in items.values()):
+                return data
+            pairs = list(items.items())
+        new = collections.OrderedDict()
+        for key, x in pairs:
+            rest = collections.OrderedDict(
+                (kk, vv) for kk, vv in x.items() if kk != key_attr)
+            if value_attr is not None and list(rest.keys()) == [value_attr]:
+                new[key] = rest[value_attr]
+            else:
+                new[key] = rest
+        data = collections.OrderedDict(data)
+        data[attr] = new
         return data
     if k == 'mapping_to_scalar' and isinstance(data, dict):
         if all(n in data for n in op[1]):
